@@ -38,7 +38,7 @@ def evaluate(case):
     o = S.resolve(devs)
     o['center_extrema'] = 'trough'
     sig = S.make_signal(w, o)
-    ok, why, ref = precondition(sig, o)
+    ok, why, ref = precondition(np.asarray(sig, dtype=float), o)
     if not ok:
         return SKIP(why)
     sgn = {'method': o['burst_method'], 'devs': list(devs)}
@@ -49,23 +49,38 @@ def evaluate(case):
     dd = diff_tables(dt, mirror(dp), exact=True)
     if dd:
         return VIOL(dict(sgn, kind='mirror'), 'trough-centred table is not the mirrored peak-centred table of -x: ' + dd)
+    nev = 2
+    if o['burst_method'] == 'cycles':
+        from bycycle.burst import recompute_edges
+        thr = S.call_kwargs(o)['threshold_kwargs']
+        red = {k: (max(v - .1, 0) if k.endswith('threshold') else v) for k, v in thr.items()}
+        et, ep = recompute_edges(dt, dict(red)), recompute_edges(dp, dict(red))
+        nev += 2
+        dd = diff_tables(et, mirror(ep), exact=True)
+        if dd:
+            return VIOL(dict(sgn, kind='mirror-edges'), 'after recompute_edges the trough-centred table is not the mirror of the '
+                        'peak-centred table of -x: ' + dd, evals=nev)
     nt = bool(dt['is_burst'].any()) and bool((dt['time_rdsym'] != .5).any())
-    return OK(outcome=table_hash(dt), nontrivial=nt, evals=2,
+    return OK(outcome=table_hash(dt), nontrivial=nt, evals=nev,
               sample={'is_burst': dt['is_burst'].tolist(), 'time_rdsym': dt['time_rdsym'].tolist()} if nt else None)
 
 
-OPTS_Q = [(), ('amp',), ('b5',), ('nc2',), ('amp', 'ns.5'), ('thr1',), ('amp', 'thr1'), ('dc5',), ('band5_12',)]
+OPTS_Q = [(), ('amp',), ('b5',), ('nc2',), ('amp', 'ns.5'), ('thr1',), ('amp', 'thr1'), ('dc5',), ('band5_12',),
+          ('int',), ('int16big',), ('int16big', 'amp'), ('driftdn',)]
 
 
 def spaces(tier, seed):
     if tier == 'quick':
         al = S.alphabet(6)
-        return [ProductSpace('W(6,5)xopts', S.word_dims(al, 5) + [OPTS_Q[:4]], evaluate, bounds={'letters': al}),
+        return [ProductSpace('W(3,7)-edges', S.word_dims(['a', 'd', 'n'], 7) + [[()]], evaluate,
+                             describe='7-letter words (bursts with edges): mirror also after recompute_edges'),
+                ProductSpace('W(6,5)xopts', S.word_dims(al, 5) + [OPTS_Q[:4]], evaluate, bounds={'letters': al}),
                 ProductSpace('W(5,5)xopts', S.word_dims(S.alphabet(5), 5) + [OPTS_Q[4:]], evaluate,
                              bounds={'letters': S.alphabet(5)})]
     al = S.alphabet(8, seed, extra=2)
     devs = [d for d in S.option_sets(2, [k for k in S.DEVIATIONS if k not in ('trough', 'nosamp', 'neg')])]
-    return [ProductSpace('W(10,5)xcore', S.word_dims(al, 5) + [[(), ('amp',)]], evaluate, bounds={'letters': al}),
+    return [ProductSpace('W(4,8)-edges', S.word_dims(['a', 'd', 'n', 'b'], 8) + [[(), ('thr1',)]], evaluate),
+            ProductSpace('W(10,5)xcore', S.word_dims(al, 5) + [[(), ('amp',)]], evaluate, bounds={'letters': al}),
             ProductSpace('W(6,6)xcore', S.word_dims(S.alphabet(6), 6) + [[(), ('amp',)]], evaluate),
             ProductSpace('W(5,5)x2dev', S.word_dims(S.alphabet(5), 5) + [devs], evaluate,
                          bounds={'option_sets': len(devs), 'max_deviations': 2})]
